@@ -378,6 +378,16 @@ Proof.
   - split; [discriminate | reflexivity].
 Qed.
 
+(* the known class F-LEGACY: the status list is absent or holds nothing but the one tolerated code *)
+Definition known_legacy (st : option (list code)) : Prop :=
+  match st with None => True | Some l => Forall (fun c => c = legacy_tolerated) l end.
+
+Theorem legacy_outside_known vt st : ~ known_legacy st -> legacy_state vt st = Invalid.
+Proof.
+  intros H. destruct (legacy_state vt st) eqn:E; [reflexivity| |]; exfalso; apply H;
+    (destruct (legacy_not_invalid vt st) as [F _]; [congruence|]); (destruct st as [l|]; [apply F; reflexivity | exact I]).
+Qed.
+
 (* F-LEGACY: the fallback reports Trusted although a failure is listed, and although nothing at all is known *)
 Theorem legacy_refuted :
   legacy_state true (Some [legacy_tolerated]) = Trusted /\ legacy_state true None = Trusted
